@@ -231,6 +231,19 @@ CLAIMED["C04"] = dict(
     technique="call-argument provenance and constant tables over MIR path tables",
 )
 
+CLAIMED["C15"] = dict(
+    category="other",
+    text=("Plumbing clauses only: R15.1 LineString ratio forms are the distance forms of ratio·length; R15.2 clamp tables of the four Line entry "
+          "points (x <= 0 -> near end, x >= bound -> far end, else interpolate(near, far, x); from_end mirrors from_start) and of the LineString "
+          "distance forms (distance <= 0 -> first/last vertex, walk over lines()/rev_lines() choosing the segment by `segment_length < remaining`, "
+          "past the end -> last/first vertex, sibling guards agree); R15.3 densify_between uses ceil(distance/max) pieces and inserts "
+          "point_at_ratio_between(start, end, k/n) for k from 1. Not decided: arc-length identities, line_locate_point round trip, the strict "
+          "length bound in floats."),
+    design_ref="DESIGN.md §4 C15",
+    note="Thin: the numeric identities are not claimed. Trusted: the metric space's interpolation and length.",
+    technique="clamp / mirror decision tables over MIR path tables",
+)
+
 NOT_YET = "rule set not implemented in this revision of /verif (see DESIGN.md §7 build order); nothing is claimed"
 NA = {}
 
